@@ -41,9 +41,39 @@ class HoldSchedule(Schedule):
         return super().choose(rows)
 
 
+class HoldOneSchedule(Schedule):
+    """One single message - the ``occurrence``-th row of type ``hold_type`` that becomes pending - is withheld while anything
+    else is deliverable, for up to ``hold_for`` deliveries; everything else follows the decision list (FIFO by default).
+    This is the long-delayed straggler (a redelivery after a lock lapse, a slow worker) that survives a jump, a cancel or a
+    restart of its stage, which a per-type hold cannot produce because it stalls the whole workflow."""
+
+    def __init__(self, decisions: list[int], max_redeliver: int, hold_type: str, occurrence: int, hold_for: int) -> None:
+        super().__init__(decisions, max_redeliver)
+        self.hold_type = hold_type
+        self.occurrence = occurrence
+        self.hold_for = hold_for
+        self.seen: list[int] = []
+        self.target: int | None = None
+        self.held = 0
+
+    def choose(self, rows: list[dict[str, Any]]) -> tuple[dict[str, Any], bool]:
+        for r in rows:
+            if r["type"] == self.hold_type and r["id"] not in self.seen:
+                self.seen.append(r["id"])
+                if len(self.seen) - 1 == self.occurrence:
+                    self.target = r["id"]
+        if self.target is not None and self.held < self.hold_for:
+            free = [r for r in rows if r["id"] != self.target]
+            if free and len(free) < len(rows):
+                self.held += 1
+                self.out_of_order += 1
+                rows = free
+        return super().choose(rows)
+
+
 @st.composite
 def schedule_desc(draw, max_len: int = 120) -> dict[str, Any]:
-    style = draw(st.sampled_from(["uniform", "uniform", "sparse", "hold", "hold", "fifo-lossy"]))
+    style = draw(st.sampled_from(["uniform", "uniform", "sparse", "hold", "hold", "hold-one", "hold-one", "fifo-lossy"]))
     if style == "uniform":
         d = draw(st.lists(st.integers(0, 9), min_size=1, max_size=max_len))
     elif style == "sparse":
@@ -60,10 +90,16 @@ def schedule_desc(draw, max_len: int = 120) -> dict[str, Any]:
     if style == "hold":
         desc["hold"] = draw(st.sampled_from(MSG_TYPES))
         desc["hold_for"] = draw(st.integers(1, 40))
+    if style == "hold-one":
+        desc["hold_one"] = draw(st.sampled_from(MSG_TYPES))
+        desc["occurrence"] = draw(st.integers(0, 6))
+        desc["hold_for"] = draw(st.integers(3, 80))
     return desc
 
 
 def make_schedule(desc: dict[str, Any]) -> Schedule:
+    if desc.get("hold_one"):
+        return HoldOneSchedule(desc["d"], desc.get("R", 2), desc["hold_one"], desc.get("occurrence", 0), desc.get("hold_for", 20))
     if desc.get("hold"):
         return HoldSchedule(desc["d"], desc.get("R", 2), desc["hold"], desc.get("hold_for", 10))
     return Schedule(desc["d"], desc.get("R", 2))
